@@ -212,7 +212,7 @@ theorem settleAll_spec {img : Bytes} (hlen : img.length < 4294967296) :
 
 theorem symTabFor_spec {o : Obj} {img : Bytes} (h : C01.ObjInv o img) (hlen : img.length < 4294967296) {i : Nat}
     {o' : Obj} {t : SymTab} (hs : TQ.symTabFor o i = some (o', t)) :
-    TabOk t ∧ (∀ hh, t.hash = some hh → Small hh) := by
+    TabOk t ∧ (∀ hh, t.hash = some hh → Small hh) ∧ C01.ObjInv o' img := by
   unfold TQ.symTabFor at hs
   cases h1 : TQ.settle o i with
   | none => rw [h1] at hs; cases hs
@@ -220,11 +220,11 @@ theorem symTabFor_spec {o : Obj} {img : Bytes} (h : C01.ObjInv o img) (hlen : im
     obtain ⟨o1, b⟩ := r
     rw [h1] at hs
     simp only [Option.some.injEq, Prod.mk.injEq] at hs
-    obtain ⟨-, rfl⟩ := hs
+    obtain ⟨rfl, rfl⟩ := hs
     obtain ⟨i1, -⟩ := settle_spec h h1
     have hb := settle_sec h hlen h1
     obtain ⟨j1, j2, -⟩ := settleOpt_spec i1 hlen (BitVec.setWidth 16 b.link).toNat
-    refine ⟨⟨hb.1, fun s hs => (j2 s hs).1, ?_⟩, ?_⟩
+    refine ⟨⟨hb.1, fun s hs => (j2 s hs).1, ?_⟩, ?_, ?_⟩
     · intro s hs
       dsimp only at hs
       split at hs
@@ -235,6 +235,9 @@ theorem symTabFor_spec {o : Obj} {img : Bytes} (h : C01.ObjInv o img) (hlen : im
       split at hs
       · cases hs
       · exact ((settleOpt_spec j1 hlen _).2.1 s hs).2
+    · split
+      · exact j1
+      · exact (settleOpt_spec j1 hlen _).1
 
 theorem liftQ_ok {α : Type} (o : Obj) {x : M α} (f : α → TQ.Out) (h : ∃ a, x = .ok a) :
     ∃ r, TQ.liftQ o x f = .ok r := by
@@ -274,7 +277,7 @@ theorem runQuery_total (o : Obj) (img : Bytes) (h : C01.ObjInv o img) (hlen : im
     | none => exact ⟨_, rfl⟩
     | some r =>
       have hk := symTabFor_spec h hlen (o' := r.1) (t := r.2) (by rw [ht])
-      exact liftQ_ok _ _ (sym_by_name_total _ hk.1 hk.2 _ _)
+      exact liftQ_ok _ _ (sym_by_name_total _ hk.1 hk.2.1 _ _)
   | symByValue i v =>
     simp only [TQ.runQuery]
     cases ht : TQ.symTabFor o i with
@@ -342,6 +345,105 @@ theorem runQuery_total (o : Obj) (img : Bytes) (h : C01.ObjInv o img) (hlen : im
       obtain ⟨b', hb', -⟩ := swap_symbols_total o.enc b hb.1 hb.2 first second
       rw [hb']
       exact ⟨_, rfl⟩
+
+theorem liftQ_obj {α : Type} {o o' : Obj} {x : M α} {f : α → TQ.Out} {out : TQ.Out}
+    (h : TQ.liftQ o x f = .ok (o', out)) : o' = o := by
+  unfold TQ.liftQ at h
+  cases x with
+  | error e => cases h
+  | ok a => simp only [pure, Except.pure, Except.ok.injEq, Prod.mk.injEq] at h; exact h.1.symm
+
+/-- a read-only query leaves an object with the loader invariant (it only makes sections resident) -/
+theorem runQuery_inv (o : Obj) (img : Bytes) (h : C01.ObjInv o img) (hlen : img.length < 4294967296)
+    (q : TQ.Query) (hq : q.readOnly = true) {o' : Obj} {out : TQ.Out} (hr : TQ.runQuery o q = .ok (o', out)) :
+    C01.ObjInv o' img := by
+  have hsettle : ∀ {i : Nat} {o1 : Obj} {b : SecBuf}, TQ.settle o i = some (o1, b) → C01.ObjInv o1 img :=
+    fun hs => (settle_spec h hs).1
+  cases q with
+  | arrange i => cases hq
+  | swap i a b => cases hq
+  | relGet i k =>
+    simp only [TQ.runQuery] at hr
+    cases hs : TQ.settle o i with
+    | none => rw [hs] at hr; simp only [pure, Except.pure, Except.ok.injEq, Prod.mk.injEq] at hr; rw [← hr.1]; exact h
+    | some r => rw [hs] at hr; rw [liftQ_obj hr]; exact hsettle hs
+  | relGetResolved i k =>
+    simp only [TQ.runQuery] at hr
+    cases hs : TQ.settle o i with
+    | none => rw [hs] at hr; simp only [pure, Except.pure, Except.ok.injEq, Prod.mk.injEq] at hr; rw [← hr.1]; exact h
+    | some r =>
+      obtain ⟨o1, b⟩ := r
+      rw [hs] at hr
+      dsimp only at hr
+      cases ht : TQ.symTabFor o1 (TQ.relSymtabIndex b) with
+      | none => rw [ht] at hr; rw [liftQ_obj hr]; exact hsettle hs
+      | some r2 =>
+        rw [ht] at hr; rw [liftQ_obj hr]
+        exact (symTabFor_spec (hsettle hs) hlen (o' := r2.1) (t := r2.2) (by rw [ht])).2.2
+  | symByName i name =>
+    simp only [TQ.runQuery] at hr
+    cases ht : TQ.symTabFor o i with
+    | none => rw [ht] at hr; simp only [pure, Except.pure, Except.ok.injEq, Prod.mk.injEq] at hr; rw [← hr.1]; exact h
+    | some r =>
+      rw [ht] at hr; rw [liftQ_obj hr]
+      exact (symTabFor_spec h hlen (o' := r.1) (t := r.2) (by rw [ht])).2.2
+  | symByValue i v =>
+    simp only [TQ.runQuery] at hr
+    cases ht : TQ.symTabFor o i with
+    | none => rw [ht] at hr; simp only [pure, Except.pure, Except.ok.injEq, Prod.mk.injEq] at hr; rw [← hr.1]; exact h
+    | some r =>
+      rw [ht] at hr; rw [liftQ_obj hr]
+      exact (symTabFor_spec h hlen (o' := r.1) (t := r.2) (by rw [ht])).2.2
+  | arrGet w i k =>
+    simp only [TQ.runQuery] at hr
+    cases hs : TQ.settle o i with
+    | none => rw [hs] at hr; simp only [pure, Except.pure, Except.ok.injEq, Prod.mk.injEq] at hr; rw [← hr.1]; exact h
+    | some r => rw [hs] at hr; rw [liftQ_obj hr]; exact hsettle hs
+  | versymGet i k =>
+    simp only [TQ.runQuery] at hr
+    cases hs : TQ.settle o i with
+    | none => rw [hs] at hr; simp only [pure, Except.pure, Except.ok.injEq, Prod.mk.injEq] at hr; rw [← hr.1]; exact h
+    | some r => rw [hs] at hr; rw [liftQ_obj hr]; exact hsettle hs
+  | needGet i num k =>
+    simp only [TQ.runQuery] at hr
+    cases hs : TQ.settle o i with
+    | none => rw [hs] at hr; simp only [pure, Except.pure, Except.ok.injEq, Prod.mk.injEq] at hr; rw [← hr.1]; exact h
+    | some r => rw [hs] at hr; rw [liftQ_obj hr]; exact (settleOpt_spec (hsettle hs) hlen _).1
+  | defGet i num k =>
+    simp only [TQ.runQuery] at hr
+    cases hs : TQ.settle o i with
+    | none => rw [hs] at hr; simp only [pure, Except.pure, Except.ok.injEq, Prod.mk.injEq] at hr; rw [← hr.1]; exact h
+    | some r => rw [hs] at hr; rw [liftQ_obj hr]; exact (settleOpt_spec (hsettle hs) hlen _).1
+
+/-- ANY sequence of read-only queries returns and keeps the loader invariant … -/
+theorem runQueries_inv (img : Bytes) (hlen : img.length < 4294967296) :
+    ∀ (qs : List TQ.Query) (o : Obj), C01.ObjInv o img → (∀ q ∈ qs, q.readOnly = true) →
+      ∃ o' outs, TQ.runQueries o qs = .ok (o', outs) ∧ C01.ObjInv o' img := by
+  intro qs
+  induction qs with
+  | nil => intro o h _; exact ⟨o, [], rfl, h⟩
+  | cons q qs ih =>
+    intro o h hro
+    unfold TQ.runQueries
+    obtain ⟨r, hr⟩ := runQuery_total o img h hlen q
+    obtain ⟨o1, out⟩ := r
+    rw [hr]
+    dsimp only
+    have h1 := runQuery_inv o img h hlen q (hro q (List.mem_cons_self ..)) hr
+    obtain ⟨o2, outs, h2, h3⟩ := ih o1 h1 (fun q' hq' => hro q' (List.mem_cons_of_mem _ hq'))
+    rw [h2]
+    exact ⟨_, _, rfl, h3⟩
+
+/-- **queries_seq_total**: … so after any sequence of read-only queries on a loaded object, with any
+    arguments (lazy loads mutate the object in between), EVERY further query — including
+    `arrange_local_symbols` and `swap_symbols` — returns. -/
+theorem queries_seq_total (o : Obj) (img : Bytes) (kind : StreamKind) (isLazy : Bool) (r : LoadRes)
+    (hl : load o { data := img, kind := kind } isLazy = .ok r) (hlen : img.length < 4294967296)
+    (qs : List TQ.Query) (hro : ∀ q ∈ qs, q.readOnly = true) (q : TQ.Query) :
+    ∃ o' outs res, TQ.runQueries r.obj qs = .ok (o', outs) ∧ TQ.runQuery o' q = .ok res := by
+  obtain ⟨o', outs, h1, h2⟩ := runQueries_inv img hlen qs r.obj (C01.load_objInv o img kind isLazy r hl) hro
+  obtain ⟨res, h3⟩ := runQuery_total o' img h2 hlen q
+  exact ⟨o', outs, res, h1, h3⟩
 
 /-- **queries_total**: load ANY byte string (shorter than 4 GiB), eagerly or lazily, from a string or
     file stream, with any address translation table, into any previous object: every table query on the
